@@ -119,15 +119,23 @@ def run(ctx, func, items, chunksize=1):
         return
     if _POOL is None:
         _POOL = mp.get_context("fork").Pool(nproc, initializer=_init_worker)
-    it = _POOL.imap_unordered(_call, [(func, i, c) for i, c in items], chunksize)
+    # own chunking: Pool.imap_unordered(chunksize>1) returns a plain generator without next(timeout=)
+    chunksize = max(1, int(chunksize))
+    chunks = [[(func, i, c) for i, c in items[k : k + chunksize]] for k in range(0, len(items), chunksize)]
+    it = _POOL.imap_unordered(_call_chunk, chunks, 1)
     limit = float(os.environ.get("VERIF_TASK_TIMEOUT", "3600"))
-    for _ in range(len(items)):
+    for _ in range(len(chunks)):
         try:
-            idx, res = it.next(timeout=limit)
+            out = it.next(timeout=limit)
         except mp.TimeoutError:
             # a worker died (e.g. killed by the runtime) or hangs: machinery failure, never a verdict
             raise RuntimeError("no worker result within %.0f s: a worker process died or hangs" % limit)
-        yield idx, res
+        for idx, res in out:
+            yield idx, res
+
+
+def _call_chunk(chunk):
+    return [_call(x) for x in chunk]
 
 
 def shutdown():
